@@ -3,8 +3,10 @@ package main
 import (
 	"encoding/xml"
 	"fmt"
+	"go/token"
 	"go/types"
 	"io"
+	"sort"
 	"strings"
 
 	"golang.org/x/tools/go/ssa"
@@ -131,6 +133,48 @@ func ruleCTMedia(r *Run) {
 	p := r.P
 	sl := newSlicer(p)
 	n := 0
+	// format constant → string constants assigned in the region of `format == const`
+	caseConsts := func(fn *ssa.Function, want func(string) bool) (map[string]string, bool) {
+		out := map[string]string{}
+		hasParam := false
+		for _, par := range fn.Params {
+			if nt, ok := par.Type().(*types.Named); ok && nt.Obj().Name() == "ImageFormat" {
+				hasParam = true
+				for _, c := range strCompares(fn) {
+					if stripConv(c.Operand) != ssa.Value(par) {
+						continue
+					}
+					for b := range c.Region {
+						for _, in := range b.Instrs {
+							for _, op := range in.Operands(nil) {
+								if *op == nil {
+									continue
+								}
+								if s, ok := constString(*op); ok && want(s) {
+									out[c.Const] = s
+								}
+							}
+						}
+					}
+					// values that only appear as phi inputs from the region
+					for _, b := range fn.Blocks {
+						for _, in := range b.Instrs {
+							ph, ok := in.(*ssa.Phi)
+							if !ok {
+								continue
+							}
+							for i, e := range ph.Edges {
+								if s, ok := constString(e); ok && want(s) && c.Region[b.Preds[i]] {
+									out[c.Const] = s
+								}
+							}
+						}
+					}
+				}
+			}
+		}
+		return out, hasParam
+	}
 	for _, ps := range collectPartStores(p) {
 		key := ps.Key.norm()
 		if len(key) == 0 || key[0].Sym != nil || !strings.HasPrefix(key[0].Const, "word/media/") {
@@ -138,16 +182,17 @@ func ruleCTMedia(r *Run) {
 		}
 		n++
 		fn := ps.Fn
-		// what determines the extension in the key?
-		keyRes := sl.Slice(ps.MU.Key)
-		extFromName := false
-		for v := range keyRes.Vals {
-			if c, ok := v.(*ssa.Call); ok && calleeName(c) == "path/filepath.Ext" {
-				extFromName = true
+		// namer: module callee in the key's slice that switches on the image format
+		var namer, registrar *ssa.Function
+		for v := range sl.Slice(ps.MU.Key).Vals {
+			if c, ok := v.(*ssa.Call); ok {
+				if cal := staticCallee(c); cal != nil && p.inModule(cal) {
+					if _, has := caseConsts(cal, func(string) bool { return true }); has {
+						namer = cal
+					}
+				}
 			}
 		}
-		// what determines the registered default extension?
-		var regDeps *sliceRes
 		allInstrs(fn, func(in ssa.Instruction) {
 			c, ok := in.(*ssa.Call)
 			if !ok {
@@ -166,30 +211,58 @@ func ruleCTMedia(r *Run) {
 				}
 			})
 			if writesDefaults {
-				regDeps = sl.Slice(c.Call.Args[len(c.Call.Args)-1])
-				for _, a := range c.Call.Args {
-					sl.walk(a, regDeps, 0)
+				registrar = cal
+			}
+		})
+		if registrar == nil {
+			r.Check("ct-media", shortName(fn)+":registers", ps.MU.Pos(), false, "a media part is stored but no content-type default is registered by the same operation")
+			continue
+		}
+		if namer == nil {
+			r.Check("ct-media", shortName(fn)+":namer", ps.MU.Pos(), false, "the media part name is not produced by a function of the image format: its extension cannot be matched with the registered content-type default")
+			continue
+		}
+		names, _ := caseConsts(namer, func(s string) bool { return strings.HasPrefix(s, ".") })
+		regs, _ := caseConsts(registrar, func(s string) bool { return !strings.Contains(s, "/") && !strings.HasPrefix(s, ".") && s != "" })
+		var fmts []string
+		for f := range regs {
+			fmts = append(fmts, f)
+		}
+		for f := range names {
+			if _, ok := regs[f]; !ok {
+				fmts = append(fmts, f)
+			}
+		}
+		sort.Strings(fmts)
+		for _, f := range fmts {
+			ok := names[f] != "" && regs[f] != "" && names[f] == "."+regs[f]
+			r.Check("ct-media", fmt.Sprintf("%s:format=%s", shortName(fn), f), ps.MU.Pos(), ok,
+				fmt.Sprintf("image format %q: media part extension chosen by %s is %q, content-type default registered by %s is %q — they must be the same extension or the part has no content type", f, shortName(namer), names[f], shortName(registrar), regs[f]))
+		}
+		r.Min("image_formats:"+shortName(fn), len(fmts), 3)
+		// the caller's file name may determine the extension only in the default arm, i.e. where every
+		// comparison with a format the registrar knows has already failed
+		extFromName := false
+		allInstrs(namer, func(in ssa.Instruction) {
+			c, ok := in.(*ssa.Call)
+			if !ok || calleeName(c) != "path/filepath.Ext" {
+				return
+			}
+			for _, sc := range strCompares(namer) {
+				if _, known := regs[sc.Const]; !known {
+					continue
+				}
+				falseSucc := sc.If.Block().Succs[1]
+				if bo, ok := sc.If.Cond.(*ssa.BinOp); ok && bo.Op == token.NEQ {
+					falseSucc = sc.If.Block().Succs[0]
+				}
+				if !falseSucc.Dominates(c.Block()) {
+					extFromName = true
 				}
 			}
 		})
-		if regDeps == nil {
-			r.Check("ct-media", shortName(fn), ps.MU.Pos(), false, "a media part is stored but no content-type default is registered by the same operation")
-			continue
-		}
-		// the registered extension must be computed from the same source as the key's extension:
-		// if the key's extension comes from the caller's file name, the registration must depend on it too
-		regFromName := false
-		for v := range regDeps.Vals {
-			if c, ok := v.(*ssa.Call); ok && calleeName(c) == "path/filepath.Ext" {
-				regFromName = true
-			}
-			if par, ok := v.(*ssa.Parameter); ok && par.Name() == "fileName" {
-				regFromName = true
-			}
-		}
-		ok := !extFromName || regFromName
-		r.Check("ct-media", shortName(fn), ps.MU.Pos(), ok,
-			fmt.Sprintf("%s names the media part with the extension of the caller's file name (filepath.Ext) but registers the content-type default from the image format only: a name such as photo.jpg (format JPEG registers \"jpeg\") or logo.PNG leaves the part without a content type", shortName(fn)))
+		r.Check("ct-media", shortName(fn)+":caller-extension", ps.MU.Pos(), !extFromName,
+			fmt.Sprintf("%s takes the extension of a media part of a known format from the caller's file name (filepath.Ext): a name such as photo.jpg or logo.PNG then has no registered content type", shortName(namer)))
 	}
 	r.Min("media_part_stores", n, 2)
 }
